@@ -38,6 +38,10 @@ pub struct Arrangement {
     pub module_order: Vec<usize>,
     /// sizes of consecutive groups of modules forming one source each (sum = #modules)
     pub groups: Vec<usize>,
+    /// sources handed over TWICE: (index of the source to repeat, position of the copy), both
+    /// taken modulo the number of sources — the set of definitions stays the same
+    #[serde(default)]
+    pub dup: Vec<(usize, usize)>,
 }
 
 #[derive(Clone, Debug, Serialize, Deserialize, PartialEq)]
@@ -90,7 +94,7 @@ pub fn rename_shared_apart(set: &ModuleSet) -> ModuleSet {
 }
 
 pub fn canonical(set: &ModuleSet) -> Arrangement {
-    Arrangement { assign_perms: vec![], module_order: (0..set.modules.len()).collect(), groups: vec![1; set.modules.len()] }
+    Arrangement { assign_perms: vec![], module_order: (0..set.modules.len()).collect(), groups: vec![1; set.modules.len()], dup: vec![] }
 }
 
 pub fn random_arrangement(set: &ModuleSet, rng: &mut Rng) -> Arrangement {
@@ -117,7 +121,7 @@ pub fn random_arrangement(set: &ModuleSet, rng: &mut Rng) -> Arrangement {
         groups.push(g);
         left -= g;
     }
-    Arrangement { assign_perms, module_order, groups }
+    Arrangement { assign_perms, module_order, groups, dup: vec![] }
 }
 
 /// source texts of a generated set in a given arrangement
@@ -146,6 +150,17 @@ pub fn arrange(set: &ModuleSet, arr: &Arrangement) -> Vec<String> {
 }
 
 pub fn input_texts(input: &Input, arr: &Arrangement) -> Vec<String> {
+    let mut texts = input_texts_once(input, arr);
+    for (which, at) in &arr.dup {
+        if !texts.is_empty() {
+            let copy = texts[which % texts.len()].clone();
+            texts.insert(at % (texts.len() + 1), copy);
+        }
+    }
+    texts
+}
+
+fn input_texts_once(input: &Input, arr: &Arrangement) -> Vec<String> {
     match input {
         Input::Gen(set) => arrange(set, arr),
         Input::Corpus(path) => vec![std::fs::read_to_string(path).unwrap_or_default()],
@@ -318,8 +333,15 @@ impl Scenario for C11Threads {
                 let arr = match &inputs[input] {
                     Input::Gen(set) => random_arrangement(set, &mut w),
                     Input::Corpus(_) => Arrangement::default(),
-                    Input::CorpusSet(paths) => Arrangement { assign_perms: vec![], module_order: w.permutation(paths.len()), groups: vec![] },
+                    Input::CorpusSet(paths) => Arrangement { assign_perms: vec![], module_order: w.permutation(paths.len()), groups: vec![], dup: vec![] },
                 };
+                let mut arr = arr;
+                if !self.xmod && w.chance(1, 6) {
+                    // the same source once more, somewhere in the list (as `-d dir -m dir/x.asn` does)
+                    for _ in 0..(1 + w.below(2)) {
+                        arr.dup.push((w.below(8), w.below(9)));
+                    }
+                }
                 h.push(Op {
                     input,
                     arr,
@@ -345,7 +367,7 @@ impl Scenario for C11Threads {
                     let t = k % ops.len();
                     ops[t].push(Op {
                         input: gi,
-                        arr: Arrangement { assign_perms: vec![], module_order: perm, groups: if one_source { vec![n] } else { vec![1; n] } },
+                        arr: Arrangement { assign_perms: vec![], module_order: perm, groups: if one_source { vec![n] } else { vec![1; n] }, dup: vec![] },
                         backend: be.clone(),
                         files: false,
                         bp: BuilderPath::default(),
